@@ -114,13 +114,13 @@ def check(run):
     lines = refs + [j[2] for j in jobs]
     ia = tools.impl(lines)
     ma = tools.model(lines)
-    nbad = 0
+    nbad, corr = 0, []
     for l, a, m in zip(lines, ia, ma):
         if canon(a) != m:
             nbad += 1
             if nbad <= 4:
-                run.report("correspondence", write_replay_case("script", l), {"impl": a[:3000], "model": m[:3000], "spec": "n/a"},
-                           broken="correspondence model/Concat.v vs src/concat/mod.rs: " + first_diff(canon(a), m), found_input=False)
+                corr.append(dict(case=write_replay_case("script", l), observed={"impl": a[:3000], "model": m[:3000], "spec": "n/a"},
+                                 broken="correspondence model/Concat.v vs src/concat/mod.rs: " + first_diff(canon(a), m)))
     # the property itself on the implementation's answers: every variant agrees with the one-shot run
     parsed_ref = [parse_answer(a) for a in ia[:len(refs)]]
     slines = []
@@ -160,6 +160,10 @@ def check(run):
         run.cov["reference_results"][k] = run.cov["reference_results"].get(k, 0) + 1
     run.cov["samples"] = [refs[0][:300], jobs[0][2][:300], jobs[len(jobs) // 2][2][:300], jobs[-1][2][:300]]
     run.note("%d member lists, %d runs, %d correspondence problems, %d spec violations" % (len(lists), len(lines), nbad, nviol))
+    # a broken correspondence is reported on its own only when the search found no failing input
+    if corr and not any(v[2] for v in run.violations):
+        for c in corr:
+            run.report("correspondence", c["case"], c["observed"], broken=c["broken"], found_input=False)
     if not ok_proof and not run.violations:
         run.report("proof-obligation", {"stage": "proof"}, {"broken": broken}, broken="; ".join(b[:400] for b in broken), found_input=False)
 
